@@ -1,0 +1,16 @@
+//go:build verif
+
+// Contracts for the deductive verifier in /verif (comment-only file).
+// Property C17: reads through the read-fallback composite consult the PRIMARY
+// backend first (the secondary only through the replicator the selector hands
+// out).
+package readfallback
+
+//@ func (*readFallbackBlobAccess).Get
+//@   requires ba.BlobAccess != nil
+//@   ensures result != nil
+//@   ensures [primary-backend-first] baGets(ba.BlobAccess) == old(baGets(ba.BlobAccess)) + 1 && baDigest(ba.BlobAccess) == digest.value
+//@ func (*readFallbackBlobAccess).GetFromComposite
+//@   requires ba.BlobAccess != nil
+//@   ensures result != nil
+//@   ensures [primary-backend-first] baCalls(ba.BlobAccess) == old(baCalls(ba.BlobAccess)) + 1 && baDigest(ba.BlobAccess) == parentDigest.value
